@@ -128,8 +128,9 @@ def equality_test(actual, expected, _exact_strings, _delta):
     elif isinstance(actual, SET_GENERATOR_TYPES):
         actual = set(actual)
 
-    # Float comparison
-    if isinstance(expected, float) and isinstance(actual, (float, int)):
+    # Float comparison (whichever side holds the float)
+    if ((isinstance(expected, float) and isinstance(actual, (float, int))) or
+            (isinstance(actual, float) and isinstance(expected, (float, int)))):
         error = _delta
         return abs(expected - actual) < error
     # Other numerics
